@@ -126,8 +126,8 @@ func newEnv(mode, proto string, nResponses int) (*env, []uint64) {
 // feed is connection.doRead + onRead: append what the socket returned, hand the buffer to Dispatch.
 func (e *env) feed(chunk []byte) {
 	_, _ = e.raw.Write(chunk)
-	// a Dispatch over n buffered bytes that yields k frames needs a handful of buffer reads per frame
-	e.buf.Calls, e.buf.Budget = 0, 4096+64*e.raw.Len()
+	// a Dispatch needs < 16 buffer reads per frame it yields and no frame is shorter than 16 bytes
+	e.buf.Calls, e.buf.Budget = 0, 256+4*e.raw.Len()
 	e.sc.Dispatch(e.buf)
 }
 
@@ -387,7 +387,8 @@ func checkStream(fail failFn, c *streamCase, frames [][]byte, cutSets [][]int) {
 			}
 		}
 		// sanity of the observation itself: a request must reach the stream layer with exactly its own bytes
-		if c.Mode == "server" && (kinds[i] == "request" || kinds[i] == "oneway") && !(c.Proto[:4] == "bolt" && isGoAway(f)) {
+		// (thrift ONEWAY messages are classified as responses by MOSN's dubbo-thrift codec - a C01 matter, not asserted here)
+		if c.Mode == "server" && (kinds[i] == "request" || kinds[i] == "oneway" && c.Proto != "dubbo-thrift") && !(c.Proto[:4] == "bolt" && isGoAway(f)) {
 			wantRaw := " raw=" + digest(f)
 			if len(e.rec.events) != 1 || !strings.HasSuffix(e.rec.events[0], wantRaw) {
 				fail(c.Proto+"/server/request-not-handed-on-with-its-own-bytes", "frame %d (%s, %d bytes) alone: events %v, expected one request with%s", i, kinds[i], len(f), e.rec.events, wantRaw)
